@@ -91,7 +91,7 @@ func genCall(r *rand.Rand, fam string, rules []Rule, target string) Call {
 	m := ms[r.Intn(len(ms))]
 	c := Call{Method: m, Via: "direct", B: r.Intn(2) == 0, Names: []string{}, Dag: [][]string{}, Beh: map[string]string{}}
 	nr := len(rules)
-	failP := []float64{0, 0.15, 0.4}[r.Intn(3)]
+	failP := []float64{0, 0.15, 0.4, 0.9}[r.Intn(4)] // 0.9: nearly every rule fails
 	for _, ru := range rules {
 		var opts []string
 		if ru.Tpl == "B" {
@@ -225,6 +225,7 @@ func genRandom(n int, fam string, seed int64, path string, target string) {
 			if r.Intn(3) == 0 {
 				rules[j].FK = failKinds[r.Intn(len(failKinds))]
 			}
+			rules[j].NoSal = r.Intn(2) == 0
 		}
 		s := Session{ID: 1000000 + i, Target: tgt, Rules: rules}
 		// histories: a call is preceded by other calls on the same engine (state left behind by a call must not leak)
